@@ -3,7 +3,7 @@
    booster::aio::event_loop_impl at lock granularity: [run_labels ls st0] is the state after ANY interleaving
    [ls] of critical sections executed by any number of threads (labels are total: a label that is not enabled,
    or that re-uses a handler id, is a no-op), so a statement quantified over [ls] holds for every schedule. *)
-From CppcmsV Require Import Base.Tac C17.Defs C17.Proofs C17.Proofs2 C17.Proofs3 C17.Proofs4 C17.Proofs5 C17.Proofs6 C17.Proofs7.
+From CppcmsV Require Import Base.Tac C17.Defs C17.Proofs C17.Proofs2 C17.Proofs3 C17.Proofs4 C17.Proofs5 C17.Proofs6 C17.Proofs7 C17.Solo C17.Pool2 C17.CancelIo C17.CompDefs C17.Comp C17.Fair C17.Fair2 C17.Fair3 C17.PoolFair.
 Local Open Scope N_scope.
 
 (* 1. conservation: every handler id ever accepted by post / set_io_event / set_timer_event occurs exactly once in
@@ -122,9 +122,93 @@ Example sleep_nonvacuous :
   (lpc s = Poll /\ timeout s = 40 /\ pstart s = 0 /\ map fst (timers s) = [20;40;60] /\ woken s = true /\
    woken (run_labels [LSetTimer 1 40; LBegin; LTick 5; LSetTimer 2 60] st0) = false)%type.
 Proof. vm_compute. repeat split. Qed.
-(* progress_partial: what is NOT proved is one end-to-end liveness statement (under a fairness assumption on the loop
-   thread and on the reactor, every handler whose event happened is eventually invoked); the safety ingredients are
-   proved separately: no_lost_wakeup, no_sleep_past_a_deadline, due_timers_are_dispatched, only_loop_thread_pops,
+(* 3 (progress, deterministic half).  [run_one_solo b s] (Solo.v) is one complete run_one executed by the loop thread while
+   the other threads are quiet: LBegin, then LExec/LDone while an entry is popped (b = the reactor select() error bit given to
+   deferred setters).  (i) every completion entry that is in the dispatch queue when a run_one starts is invoked by that
+   run_one, with its stored code; (ii) a run_one that starts with a due timer in the table ends in the reactor poll with the
+   timer handler queued with success and a zero poll timeout; (iii) hence from a polling loop with a due timer (e.g. one armed
+   as the new earliest by another thread, which by no_sleep_past_a_deadline has written the self-pipe): whatever the poll
+   reports, the run_one after the wake-up queues the handler and the following one invokes it with success *)
+Theorem queued_handler_runs_in_next_run_one : forall b s h c,
+  lpc s = Idle -> stop s = false -> In (Run h c) (queue s) -> In (h,c,clock s) (log (run_one_solo b s)).
+Proof. exact solo_run_one_runs_queued. Qed.
+Print Assumptions queued_handler_runs_in_next_run_one.
+Theorem due_timer_queued_by_next_run_one : forall b ls dl h,
+  let s := run_labels ls st0 in
+  lpc s = Idle -> stop s = false -> In (dl,h) (timers s) -> dl <= clock s ->
+  let s1 := run_one_solo b s in
+  (In (Run h Ok) (queue s1) /\ lpc s1 = Poll /\ timeout s1 = 0 /\ stop s1 = false /\ clock s1 = clock s)%type.
+Proof. intros b ls dl h s. exact (solo_run_one_dispatches_due b s dl h (reach_run ls)). Qed.
+Print Assumptions due_timer_queued_by_next_run_one.
+Theorem due_timer_fires_after_wakeup : forall b ls dl h evs intr evs2 intr2,
+  let s := run_labels ls st0 in
+  lpc s = Poll -> stop s = false -> In (dl,h) (timers s) -> dl <= clock s ->
+  let s1 := run_one_solo b (step (LPollEnd evs intr) s) in
+  let s2 := run_one_solo b (step (LPollEnd evs2 intr2) s1) in
+  In (h,Ok,clock s) (log s2).
+Proof. intros b ls dl h evs intr evs2 intr2 s. exact (solo_due_timer_fires b s dl h evs intr evs2 intr2 (reach_run ls)). Qed.
+Print Assumptions due_timer_fires_after_wakeup.
+Example timer_fires_nonvacuous :
+  let s := run_labels [LSetTimer 1 40; LPost 9 Ok; LBegin; LExec false; LDone; LTick 5; LSetTimer 3 2] st0 in
+  let s2 := run_one_solo false (step (LPollEnd [] true) (run_one_solo false (step (LPollEnd [] true) s))) in
+  (lpc s = Poll /\ woken s = true /\ timeout s = 40 /\ map fst (log s2) = [(9,Ok);(3,Ok)] /\ map snd (timers s2) = [1])%type.
+Proof. vm_compute. repeat split. Qed.
+(* 3 (progress under interference).  [sched n ls] (Fair.v): a schedule in which the loop thread performs LBegin and then n times
+   (LExec b; LDone), with any number of steps of other threads - post, set_io_event, cancel_io_events, set_timer_event,
+   cancel_timer_event, time passing; everything except stop and reset - anywhere in between.  Whatever the other threads do
+   meanwhile, a completion entry that is in the dispatch queue is invoked once the loop thread has started a run_one and executed
+   as many entries as were in front of it plus one *)
+Theorem queued_handler_runs_whatever_other_threads_do : forall s q1 h c q2 ls,
+  lpc s = Idle -> stop s = false -> running s = None -> queue s = q1 ++ Run h c :: q2 ->
+  sched (S (length q1)) ls -> exists t, In (h,c,t) (log (run_labels ls s)).
+Proof. exact queued_handler_runs_despite_interference. Qed.
+Print Assumptions queued_handler_runs_whatever_other_threads_do.
+Example interference_nonvacuous :
+  sched 2 [LSetIo 4 DIn 8 false; LBegin; LTick 3; LExec false; LCancelIo 4; LPost 9 Ok; LDone; LSetTimer 10 5; LExec false; LDone; LTick 1] /\
+  map fst (log (run_labels [LSetIo 4 DIn 8 false; LBegin; LTick 3; LExec false; LCancelIo 4; LPost 9 Ok; LDone; LSetTimer 10 5; LExec false; LDone; LTick 1]
+                           (run_labels [LPost 6 Ok; LPost 7 Canceled] st0))) = [(6,Ok);(7,Canceled)].
+Proof.
+  split; [|vm_compute; reflexivity].
+  exists [LSetIo 4 DIn 8 false], [LTick 3; LExec false; LCancelIo 4; LPost 9 Ok; LDone; LSetTimer 10 5; LExec false; LDone; LTick 1].
+  split; [reflexivity|]. split; [|reflexivity].
+  apply (pairs_S 1 [LTick 3] false [LCancelIo 4; LPost 9 Ok] [LSetTimer 10 5; LExec false; LDone; LTick 1]); [reflexivity|reflexivity|].
+  apply (pairs_S 0 [LSetTimer 10 5] false [] [LTick 1]); [reflexivity|reflexivity|]. apply pairs_O. reflexivity.
+Qed.
+(* the same for timers (Fair2.v): [pairs_but h n rest] = n times (LExec b; LDone) with steps of other threads in between - everything
+   except stop, reset and the cancel of timer h itself.  (i) The run_one that starts while timer h is due - whatever the other
+   threads do during it - ends in the reactor poll with the handler of h queued with success; (ii) whatever that poll reports, the
+   handler is then invoked once the loop thread has executed the entries in front of it, again under arbitrary interference *)
+Theorem due_timer_is_dispatched_whatever_other_threads_do : forall ls0 dl h rest,
+  let s := run_labels ls0 st0 in
+  lpc s = Idle -> stop s = false -> In (dl,h) (timers s) -> dl <= clock s ->
+  pairs_but h (length (queue s)) rest ->
+  let s1 := run_labels ([LBegin] ++ rest) s in
+  (In (Run h Ok) (queue s1) /\ lpc s1 = Poll /\ stop s1 = false)%type.
+Proof. intros ls0 dl h rest s. exact (due_timer_dispatched_despite_interference s dl h rest (reach_run ls0)). Qed.
+Print Assumptions due_timer_is_dispatched_whatever_other_threads_do.
+Theorem due_timer_runs_whatever_other_threads_do : forall ls0 dl h rest evs intr ls2,
+  let s := run_labels ls0 st0 in
+  lpc s = Idle -> stop s = false -> In (dl,h) (timers s) -> dl <= clock s ->
+  pairs_but h (length (queue s)) rest ->
+  let s1 := run_labels ([LBegin] ++ rest) s in
+  let s2 := step (LPollEnd evs intr) s1 in
+  (exists q1 q2, queue s2 = q1 ++ Run h Ok :: q2 /\ sched (S (length q1)) ls2) ->
+  exists t, In (h,Ok,t) (log (run_labels ls2 s2)).
+Proof. intros ls0 dl h rest evs intr ls2 s. exact (due_timer_runs_despite_interference s dl h rest evs intr ls2 (reach_run ls0)). Qed.
+Print Assumptions due_timer_runs_whatever_other_threads_do.
+Example timer_interference_nonvacuous :
+  let s := run_labels [LSetTimer 1 40; LPost 9 Ok; LTick 50] st0 in
+  (pairs_but 1 (length (queue s)) [LTick 3; LCancelTimer 8; LExec false; LSetTimer 7 5; LDone; LPost 4 Ok] /\
+   queue (run_labels ([LBegin] ++ [LTick 3; LCancelTimer 8; LExec false; LSetTimer 7 5; LDone; LPost 4 Ok]) s) = [Run 7 Ok; Run 1 Ok; Run 4 Ok])%type.
+Proof.
+  split; [|vm_compute; reflexivity].
+  apply (pairs_but_S 1 0 [LTick 3; LCancelTimer 8] false [LSetTimer 7 5] [LPost 4 Ok]); [reflexivity|reflexivity|]. apply pairs_but_O. reflexivity.
+Qed.
+(* progress_partial: what is NOT proved is one end-to-end liveness statement under a fairness assumption with the other
+   threads still running that also covers descriptor waits and the OS side (every handler whose event happened is
+   eventually invoked): queued_handler_runs_whatever_other_threads_do covers entries already in the dispatch queue,
+   due_timer_*_whatever_other_threads_do due timers; the cancel_io progress theorems are for a loop thread that is not
+   disturbed during the two run_one calls; the interleaving-robust ingredients are proved separately: no_lost_wakeup, no_sleep_past_a_deadline, due_timers_are_dispatched, only_loop_thread_pops,
    run_one_pops_front / _next / _budget_end *)
 Example wakeup_nonvacuous :
   let s := run_labels [LBegin; LPost 7 Ok] st0 in (lpc s = Poll /\ q_nonempty s = true /\ timeout s = IDLE_MS /\ woken s = true)%type.
@@ -224,6 +308,88 @@ Theorem pool_exactly_once_at_quiescence : forall ls,
   forall j, In j (pposted p) <-> (count_occ N.eq_dec (plog p) j + count_occ N.eq_dec (pcan p) j = 1)%nat.
 Proof. intros ls p Q W j. apply (pool_quiescent p (PCons_run ls pool0 PCons_init) Q W j). Qed.
 Print Assumptions pool_exactly_once_at_quiescence.
+(* 5b. stop(), exceptions, post after stop.  stop() = the critical section PStop (shut_down_ = true, notify_all) followed by the join
+       of every worker; a worker returns (is joinable) only through the shut_down_ test at the top of its locked section. *)
+(* a job body that was dequeued runs, whether or not it throws and whether or not stop() has been called meanwhile *)
+Theorem dequeued_job_runs_whatever_happens : forall p w j exc,
+  w_get (wjob p) w = Some j -> plog (fst (pstep (PWorkerRun w exc) p)) = plog p ++ [j].
+Proof. exact dequeued_job_runs. Qed.
+Print Assumptions dequeued_job_runs_whatever_happens.
+(* a job that ran - thrown or not - is never run again, in any continuation by any number of threads *)
+Theorem thrown_job_is_not_rerun : forall ls w j exc,
+  let p := prun ls pool0 in
+  w_get (wjob p) w = Some j -> forall ls2, count_occ N.eq_dec (plog (prun ls2 (fst (pstep (PWorkerRun w exc) p)))) j = 1%nat.
+Proof. intros ls w j exc p H. apply thrown_job_not_rerun; [apply PCons_run, PCons_init|exact H]. Qed.
+Print Assumptions thrown_job_is_not_rerun.
+(* exceptions do not stop the pool: a worker that is left alone with a running pool takes every queued job in FIFO order and
+   runs it, whichever of the job bodies throw ([excs] is arbitrary) *)
+Theorem running_pool_runs_every_queued_job_fifo : forall excs w p,
+  shut p = false -> w_exited p w = false -> w_get (wjob p) w = None -> length excs = length (pq p) ->
+  (plog (worker_solo excs w p) = plog p ++ map snd (pq p) /\ pq (worker_solo excs w p) = [] /\ w_exited (worker_solo excs w p) w = false)%type.
+Proof. exact running_pool_runs_every_queued_job. Qed.
+Print Assumptions running_pool_runs_every_queued_job_fifo.
+(* after stop()'s critical section no worker dequeues anything; what is queued then, or posted later, never runs *)
+Theorem nothing_is_dequeued_after_stop : forall ls ls2 w,
+  let p := prun ls2 (fst (pstep PStop (prun ls pool0))) in
+  (snd (pstep (PWorkerLock w) p) = 0 /\ pq (fst (pstep (PWorkerLock w) p)) = pq p /\ wjob (fst (pstep (PWorkerLock w) p)) = wjob p /\
+   plog (fst (pstep (PWorkerLock w) p)) = plog p)%type.
+Proof. intros ls ls2 w p. apply no_dequeue_after_shutdown. apply shutdown_is_permanent. reflexivity. Qed.
+Print Assumptions nothing_is_dequeued_after_stop.
+Theorem job_queued_at_stop_never_runs : forall ls j,
+  let p := fst (pstep PStop (prun ls pool0)) in
+  In j (map snd (pq p)) -> forall ls2, ~ In j (plog (prun ls2 p)).
+Proof.
+  intros ls j p I. apply queued_at_shutdown_never_runs; [apply (PCons_step PStop), PCons_run, PCons_init|reflexivity|exact I].
+Qed.
+Print Assumptions job_queued_at_stop_never_runs.
+Theorem job_posted_after_stop_never_runs : forall ls ls1 j,
+  let p := prun ls1 (fst (pstep PStop (prun ls pool0))) in
+  pfresh j p = true -> forall ls2, ~ In j (plog (prun (PPost j :: ls2) p)).
+Proof.
+  intros ls ls1 j p F. apply posted_after_shutdown_never_runs; [apply PCons_run, (PCons_step PStop), PCons_run, PCons_init| |exact F].
+  apply shutdown_is_permanent. reflexivity.
+Qed.
+Print Assumptions job_posted_after_stop_never_runs.
+(* stop() returns only after the running jobs have finished: it returns when every worker of the pool ([ws] = workers_) has been
+   joined, i.e. has returned from worker(); then stop was requested, no worker holds a job, and as long as only these workers
+   exist nothing ever runs afterwards, whatever is posted *)
+Theorem stop_returns_only_after_running_jobs_finished : forall ls ws,
+  let p := prun ls pool0 in
+  (forall w, In w ws -> w_exited p w = true) ->
+  ((forall w, In w ws -> w_get (wjob p) w = None /\ shut p = true) /\
+   (forall ls2, (forall w, In (PWorkerLock w) ls2 -> In w ws) -> (forall w e, In (PWorkerRun w e) ls2 -> In w ws) -> plog (prun ls2 p) = plog p))%type.
+Proof.
+  intros ls ws p E. destruct (stop_returns_after_running_jobs ls ws E) as [A B]. split; [|exact B].
+  intros w I. exact (exited_worker_holds_nothing ls w (E w I)).
+Qed.
+Print Assumptions stop_returns_only_after_running_jobs_finished.
+(* exactly once under interference (PoolFair.v): [wpairs i w n ls] = worker w performs n times (PWorkerLock w; PWorkerRun w e) with
+   steps of client threads anywhere in between - posts of anything, cancels of any id except i; no stop.  Whatever the clients
+   do meanwhile, the job with id i is run after the worker has taken the jobs in front of it (cancels in front only shorten the
+   wait); with job_at_most_once: exactly once *)
+Theorem queued_job_runs_whatever_clients_do : forall p w q1 i j q2 ls,
+  shut p = false -> w_exited p w = false -> w_get (wjob p) w = None ->
+  pq p = q1 ++ (i,j) :: q2 -> wpairs i w (S (length q1)) ls -> In j (plog (prun ls p)).
+Proof. exact queued_job_runs_despite_interference. Qed.
+Print Assumptions queued_job_runs_whatever_clients_do.
+Example pool_interference_nonvacuous :
+  wpairs 1 0 2 [PPost 7; PWorkerLock 0; PCancel 5; PWorkerRun 0 true; PPost 8; PWorkerLock 0; PWorkerRun 0 false; PCancel 0] /\
+  plog (prun [PPost 7; PWorkerLock 0; PCancel 5; PWorkerRun 0 true; PPost 8; PWorkerLock 0; PWorkerRun 0 false; PCancel 0]
+             (prun [PPost 1; PPost 2] pool0)) = [1;2].
+Proof.
+  split; [|vm_compute; reflexivity].
+  apply (wpairs_S 1 0 1 [PPost 7] true [PCancel 5] [PPost 8; PWorkerLock 0; PWorkerRun 0 false; PCancel 0]); [reflexivity|reflexivity|].
+  apply (wpairs_S 1 0 0 [PPost 8] false [] [PCancel 0]); [reflexivity|reflexivity|]. apply wpairs_O. reflexivity.
+Qed.
+(* non-vacuity: job 1 is running when stop is called with 2 queued behind it; 3 is posted afterwards; the body of 1 still runs
+   (and throws), the worker then returns; 2 and 3 never run; only then may stop() return *)
+Definition sdemo : list plabel := [PPost 1; PPost 2; PWorkerLock 0; PStop; PPost 3; PWorkerRun 0 true; PWorkerLock 0; PWorkerLock 0; PWorkerRun 0 false].
+Example stop_nonvacuous :
+  plog (prun sdemo pool0) = [1] /\ map snd (pq (prun sdemo pool0)) = [2;3] /\ w_exited (prun sdemo pool0) 0 = true /\
+  w_exited (prun [PPost 1; PPost 2; PWorkerLock 0; PStop; PPost 3] pool0) 0 = false /\
+  w_get (wjob (prun [PPost 1; PPost 2; PWorkerLock 0; PStop; PPost 3] pool0)) 0 = Some 1 /\
+  plog (worker_solo [true;false;true] 0 (prun [PPost 1; PPost 2; PPost 3] pool0)) = [1;2;3].
+Proof. vm_compute. repeat split. Qed.
 (* non-vacuity: two client threads post 1,2,3; worker 0 takes 1; job 2 is cancelled (true), cancelling it again or cancelling
    the running job gives false; job 1 throws, the worker goes on and runs 3 *)
 Definition pdemo : list plabel :=
@@ -232,4 +398,91 @@ Example pool_nonvacuous :
   plog (prun pdemo pool0) = [1;3] /\ pcan (prun pdemo pool0) = [2] /\ pq (prun pdemo pool0) = [] /\
   snd (pstep (PCancel 1) (prun [PPost 1; PPost 2; PWorkerLock 0; PPost 3] pool0)) = 1 /\
   snd (pstep (PCancel 0) (prun [PPost 1; PPost 2; PWorkerLock 0; PPost 3] pool0)) = 0.
+Proof. vm_compute. repeat split. Qed.
+
+(* 6. descriptor waits: cancel and close.  basic_io_device::close() is cancel() followed by ::close(fd) (rigid text tie in
+      checks/C17.py), so the statements about cancel_io_events cover close() of a descriptor with armed handlers. *)
+(* the canceler completes BOTH armed directions with `canceled`, reader first, and empties the slot *)
+Theorem canceler_completes_both_directions : forall s fd hr hw,
+  (0 <= fd)%Z -> rd (fd_get (fdmap s) fd) = Some hr -> wr (fd_get (fdmap s) fd) = Some hw ->
+  queue (do_canceler fd s) = queue s ++ [Run hr Canceled; Run hw Canceled] /\ fd_get (fdmap (do_canceler fd s)) fd = iod0.
+Proof. exact canceler_queues_both. Qed.
+Print Assumptions canceler_completes_both_directions.
+(* cancel_io_events(fd) issued while the loop thread is between two run_one calls (by any thread, or before run()): a registered
+   reader / writer h is invoked with `canceled` by the next run_one when the cancel ran in place (a reactor exists) and by the one
+   after it when the cancel was deferred (no reactor yet); by at_most_once it is invoked exactly once *)
+Theorem cancel_io_invokes_armed_reader_with_canceled : forall b i ls fd h,
+  let s := run_labels ls st0 in
+  lpc s = Idle -> stop s = false -> queue s = [] -> (0 <= fd)%Z -> rd (fd_get (fdmap s) fd) = Some h ->
+  let s1 := step (LCancelIo fd) s in
+  let s2 := run_one_solo b s1 in
+  let s3 := run_one_solo b (step (LPollEnd [] i) s2) in
+  In (h, Canceled, clock s) (log s2) \/ In (h, Canceled, clock s) (log s3).
+Proof. intros b i ls fd h s. exact (cancel_io_invokes_reader b i s fd h (reach_run ls)). Qed.
+Print Assumptions cancel_io_invokes_armed_reader_with_canceled.
+Theorem cancel_io_invokes_armed_writer_with_canceled : forall b i ls fd h,
+  let s := run_labels ls st0 in
+  lpc s = Idle -> stop s = false -> queue s = [] -> (0 <= fd)%Z -> wr (fd_get (fdmap s) fd) = Some h ->
+  let s1 := step (LCancelIo fd) s in
+  let s2 := run_one_solo b s1 in
+  let s3 := run_one_solo b (step (LPollEnd [] i) s2) in
+  In (h, Canceled, clock s) (log s2) \/ In (h, Canceled, clock s) (log s3).
+Proof. intros b i ls fd h s. exact (cancel_io_invokes_writer b i s fd h (reach_run ls)). Qed.
+Print Assumptions cancel_io_invokes_armed_writer_with_canceled.
+(* under interference: cancel_io_events executed in place (a reactor exists, the loop thread is between two run_one calls) queues
+   the registered reader with canceled behind the entries already queued; whatever the other threads do afterwards (everything except
+   stop / reset) it is invoked with canceled once the loop thread has executed those entries *)
+Theorem cancel_in_place_runs_whatever_other_threads_do : forall ls0 fd h ls,
+  let s := run_labels ls0 st0 in
+  lpc s = Idle -> stop s = false -> reactor s = true -> (0 <= fd)%Z -> rd (fd_get (fdmap s) fd) = Some h ->
+  sched (S (length (queue s))) ls ->
+  exists t, In (h, Canceled, t) (log (run_labels ls (step (LCancelIo fd) s))).
+Proof. intros ls0 fd h ls s. exact (cancel_in_place_runs_despite_interference s fd h ls (reach_run ls0)). Qed.
+Print Assumptions cancel_in_place_runs_whatever_other_threads_do.
+Example cancel_io_nonvacuous :
+  let s := run_labels [LSetIo 5 DIn 1 false; LSetIo 5 DOut 2 false; LBegin; LExec false; LDone; LExec false; LDone; LPollEnd [] false] st0 in
+  (lpc s = Idle /\ queue s = [] /\ rd (fd_get (fdmap s) 5) = Some 1 /\ wr (fd_get (fdmap s) 5) = Some 2 /\
+   map fst (log (run_one_solo false (step (LCancelIo 5) s))) = [(1,Canceled);(2,Canceled)])%type.
+Proof. vm_compute. repeat split. Qed.
+
+(* 7. composite operations built on set_io_event: stream_socket::async_read_some / async_write_some with their internal handlers
+      reader_some / writer_some (CompDefs.v: a layer over the loop model; [crun ls cst0] = any interleaving of Layer A steps of any
+      thread, starts of composite operations - completed at once through post(h,e,n), or waiting - and exec steps in which the
+      internal handler, after a successful wait, completes the user handler or waits again).  The user handler is called at most once;
+      exactly once when nothing is pending and nothing was dropped; with the error of the wait when the wait failed (cancel, close,
+      select_failed, EBADF); only if the operation was started.  The Layer A state underneath is a reachable loop state, so all the
+      theorems above apply to the internal tokens. *)
+Theorem composite_states_are_loop_states : forall ls, reach (base (crun ls cst0)).
+Proof. exact cbase_reach. Qed.
+Print Assumptions composite_states_are_loop_states.
+Theorem user_handler_at_most_once : forall ls, NoDup (map fst (ulog (crun ls cst0))).
+Proof. exact user_at_most_once. Qed.
+Print Assumptions user_handler_at_most_once.
+Theorem user_handler_exactly_once_at_quiescence : forall ls,
+  let c := crun ls cst0 in
+  pending_toks (base c) = [] -> dropped (base c) = [] ->
+  forall u, In u (ustarted c) <-> count_occ N.eq_dec (map fst (ulog c)) u = 1%nat.
+Proof. exact user_exactly_once_at_quiescence. Qed.
+Print Assumptions user_handler_exactly_once_at_quiescence.
+Theorem user_handler_gets_the_error_of_a_failed_wait : forall se r c t cd u,
+  lpc (base c) = Popped -> running (base c) = Some (Run t cd) -> cd <> Ok ->
+  assoc (owner c) t = Some u -> assoc (cimmed c) t = None -> ulog (cstep (CExec se r) c) = ulog c ++ [(u, codenum cd)].
+Proof. exact user_gets_wait_error. Qed.
+Print Assumptions user_handler_gets_the_error_of_a_failed_wait.
+Theorem user_handler_only_if_started : forall ls u n, In (u,n) (ulog (crun ls cst0)) -> In u (ustarted (crun ls cst0)).
+Proof. exact user_only_if_started. Qed.
+Print Assumptions user_handler_only_if_started.
+(* non-vacuity: read 1 completes at once (data: code 0); read 2 would block, waits with token 11, is woken spuriously and waits again
+   with token 12, which is then cancelled: the user handler gets canceled (1); write 3 waits with token 13 and completes with eof-like
+   code 5 after a successful wait.  Every user handler once; nothing pending. *)
+Definition cdemo : list clabel :=
+  [CL LBegin; CStartPost 1 10 0; CStartWait 2 11 7 DIn false; CL (LPollEnd [] true); CL LBegin; CExec false (CDone 0); CL LDone;
+   CExec false (CDone 0); CL LDone; CL (LPollEnd [mkEv 7 true false false false] false); CL LBegin;
+   CExec false (CAgain 12 7 DIn false); CL LDone; CStartWait 3 13 8 DOut false; CL (LCancelIo 7); CL (LPollEnd [] true); CL LBegin;
+   CExec false (CDone 0); CL LDone; CExec false (CDone 0); CL LDone; CL (LPollEnd [mkEv 8 false true false false] false); CL LBegin;
+   CExec false (CDone 0); CL LDone; CExec false (CDone 5); CL LDone].
+Example composite_nonvacuous :
+  let c := crun cdemo cst0 in
+  (ulog c = [(1,0);(2,1);(3,5)] /\ ustarted c = [3;2;1] /\ pending_toks (base c) = [] /\ dropped (base c) = [] /\
+   log_toks (log (base c)) = [10;11;12;13])%type.
 Proof. vm_compute. repeat split. Qed.
